@@ -16,6 +16,8 @@ RAC = {
     'markdown_tokens': dict(crate=CORE, attach=S + 'parsers/markdown.rs', file='markdown.rs', test='rac_markdown_tokens', function='Markdown::parse'),
     'comment_frontends': dict(crate='harper-comments', attach='harper-comments/src/comment_parser.rs', file='comments.rs', test='rac_comment_frontends', function='CommentParser (tree-sitter mask + JSDoc/JavaDoc/Go/Unit comment parsers)'),
     'number_suffix_rule': dict(crate=CORE, attach=S + 'linting/correct_number_suffix.rs', file='number_suffix.rs', test='rac_number_suffix_rule', function='CorrectNumberSuffix::lint + condense_number_suffixes + lex_number'),
+    'c17_possessive': dict(crate=CORE, attach=S + 'linting/correct_number_suffix.rs', file='number_suffix.rs', test='rac_c17_possessive', function='CorrectNumberSuffix::lint + condense_contractions (ordinal followed by a possessive)'),
+    'c17_bracketed': dict(crate=CORE, attach=S + 'linting/correct_number_suffix.rs', file='number_suffix.rs', test='rac_c17_bracketed', function='CorrectNumberSuffix::lint + lex_regexish (ordinal inside square brackets)'),
     'lint_group_cache': dict(crate=CORE, attach=S + 'linting/lint_group.rs', file='lint_group.rs', test='rac_lint_group_cache', needs_corpus=True, function='LintGroup::lint (chunk cache rebase)'),
     'lsp_glue': dict(crate='harper-ls', attach='harper-ls/src/document_state.rs', file='document_state.rs', test='rac_lsp_glue', target=['--bin', 'harper-ls'], function='DocumentState::generate_diagnostics / generate_code_actions / lint_to_code_actions'),
     'fuzzy_backends': dict(crate=CORE, attach=S + 'spell/fst_dictionary.rs', file='fuzzy.rs', test='rac_fuzzy_backends', function='FstDictionary / MutableDictionary (exact queries, fuzzy_match)'),
